@@ -240,7 +240,12 @@ impl<
                 )?
             }
             SeekFrom::Current(offset) => {
-                self.seek_from_current(offset.try_into().map_err(|_| Error::InvalidOffset)?)?
+                // A file can be up to 4 GiB - 1 long, so a relative seek can
+                // span more than an i32: compute the target in 64 bits.
+                let target = i64::from(self.offset())
+                    .checked_add(offset)
+                    .ok_or(Error::InvalidOffset)?;
+                self.seek_from_start(target.try_into().map_err(|_| Error::InvalidOffset)?)?
             }
         }
         Ok(self.offset().into())
